@@ -421,7 +421,11 @@ def parseElectrumPrv (ke : KeyEnv) (s : String) : POut :=
 def parseElectrumPub (ke : KeyEnv) (s : String) : POut :=
   match electrumBlob s with
   | some blob =>
-    if blob.length = 64 then electrumOut (mkPublicKey ke (beNat (blob.take 32) : Nat) (beNat (blob.drop 32) : Nat) false) else .ok none
+    if blob.length = 64 then
+      -- coordinates are field elements: anything not below `p` is refused (`contains_point` reduces modulo `p`)
+      (if beNat (blob.take 32) ≥ ke.p ∨ beNat (blob.drop 32) ≥ ke.p then .ok none
+       else electrumOut (mkPublicKey ke (beNat (blob.take 32) : Nat) (beNat (blob.drop 32) : Nat) false))
+    else .ok none
   | none => .ok none
 
 /-- `ParseAPI.script`: compile, classify; every exception ↦ `None` -/
